@@ -24,6 +24,7 @@ template <class X> void run(Ctx& c, const Str& s, unsigned mask, int opKind) {
     if (reg) reg->protect_ro();
     { LibScope ls; rc = useLed ? X::ParseSingleUriExMm(&u, text, text + w.size(), &ep, led.mgr()) : X::ParseSingleUriEx(&u, text, text + w.size(), &ep); }
     if (rc != URI_SUCCESS) { if (reg) { reg->unprotect(); delete reg; } else free(text); c.count("parse_failed"); return; }
+    if (!faithful_uri<X>(u, s)) { c.count("skipped_unfaithful_parse"); { LibScope ls; if (useLed) X::FreeUriMembersMm(&u, led.mgr()); else X::FreeUriMembers(&u); } if (reg) { reg->unprotect(); delete reg; } else free(text); return; }
     c.note(fmt("%s owner \"%s\" mask=0x%x op=%d", X::tag(), esc(s.substr(0, 200)).c_str(), mask, opKind));
     Str what = fmt("input=\"%s\" op=%s mask=0x%x", esc(s).c_str(), opKind == 0 ? "makeOwner" : "normalize", mask);
     Str textBefore; to_string<X>(u, &textBefore);
